@@ -1,11 +1,11 @@
-(* C03 - rotational order around an edge (_sort_edge_neighborhoods): what is proved of the two pivot walks.
-   PARTIAL: the final `list.sort(key=...)` by the walk keys and the coverage of all cells of the edge are only
-   tested (correspondence + oracle); coverage needs the cells of the edge to be connected through faces and FAILS
-   otherwise (KeyError, see the refutation at the end). *)
+(* C03 - rotational order around an edge (_sort_edge_neighborhoods, after the repair e464500): the two pivot walks never
+   raise nor run out of fuel; when they reached every cell of the edge the final `list.sort(key=...)` lists the cells as
+   backward walk reversed, start, forward walk - consecutive cells share a face through the edge; otherwise the lists
+   are left unsorted. *)
 From Coq Require Import String List Arith Bool ZArith Lia Permutation Sorted.
 Import ListNotations.
 Require Import MV.Lib.Base MV.C03.Gen MV.C03.Model MV.C03.Run MV.C03.Proofs_Base MV.C03.Proofs_Simplex
-        MV.C03.Proofs_Incidence MV.C03.Proofs_Complete MV.C03.Proofs_Incidence2.
+        MV.C03.Proofs_Incidence MV.C03.Proofs_Complete MV.C03.Proofs_Incidence2 MV.C03.Proofs_Sort.
 Local Open Scope nat_scope.
 
 Lemma NoDup_app_intro {A} (l1 l2 : list A) :
@@ -179,4 +179,201 @@ Section Ring.
         intros x H2 H1. apply FR2 in H2. apply (proj1 H2). apply in_or_app.
         destruct H1 as [<-|H1]; [right; now left|now left].
   Qed.
+
+  (* ---------------------------------------------------------------- the walks never raise *)
+  Definition Inv (A B c p : nat) : Prop := c < n /\ NoDup [A; B; p] /\ incl [A; B; p] (nth c cells []).
+
+  Lemma face_of_triple A B c p :
+    Inv A B c p -> exists f, face_id faces [A; B; p] = Some f /\ f < length faces /\ Permutation (nth f faces []) [A; B; p].
+  Proof.
+    intros [Hc [ND I]]. pose proof (cell_ok_nth cells Hcells c Hc) as [LC NC]. set (C := nth c cells []) in *.
+    destruct (facet_exists C [A; B; p] ND NC I) as [i [Hi P]]; [cbn [length]; lia|]. rewrite LC in Hi.
+    assert (HC : In C cells) by (apply nth_In; assumption).
+    destruct (face_id_facet_some cells faces Hfaces C i HC Hi) as [f [E L]].
+    exists f. pose proof (proj1 (face_id_facet cells faces Hfaces C i f L) E) as PF.
+    split; [|split; [assumption|]].
+    - unfold face_id in *. rewrite cell_adj_face_rm in E. now rewrite <- (key_of_perm _ _ P).
+    - now rewrite <- PF.
+  Qed.
+
+  Lemma step_inv A B c p f c' :
+    Inv A B c p -> face_id faces [A; B; p] = Some f -> other_face_side f2c c f = Some c' ->
+    exists q rest, others (nth c' cells []) [A; B; p] = q :: rest /\ Inv A B c' q.
+  Proof.
+    intros IV Ef Eo. destruct (face_of_triple A B c p IV) as [f' [Ef' [Lf P]]].
+    assert (f' = f) by congruence. subst f'.
+    apply other_face_side_In in Eo. destruct Eo as [_ [Ic' _]].
+    unfold f2c in Ic'. rewrite (F2C_is_cells_with cells faces Hcells Hfaces) in Ic' by assumption.
+    apply filter_In in Ic'. destruct Ic' as [Hc' S]. apply in_seq in Hc'. apply subsetb_incl in S.
+    assert (Hc'' : c' < n) by (unfold n; lia).
+    pose proof (cell_ok_nth cells Hcells c' Hc'') as [LC NC]. set (C' := nth c' cells []) in *.
+    assert (I3 : incl [A; B; p] C').
+    { intros x Hx. apply S. now apply (Permutation_in _ (Permutation_sym P)). }
+    destruct IV as [_ [ND _]].
+    destruct (others C' [A; B; p]) as [|q rest] eqn:EO.
+    - exfalso. destruct (exists_not_in C' [A; B; p] NC) as [x [Hx Nx]]; [cbn [length]; lia|].
+      assert (In x (others C' [A; B; p])).
+      { unfold others. apply filter_In. split; [assumption|]. apply negb_true_iff. now apply memb_false. }
+      rewrite EO in H. contradiction.
+    - exists q, rest. split; [reflexivity|].
+      assert (Iq : In q (others C' [A; B; p])) by (rewrite EO; now left).
+      unfold others in Iq. apply filter_In in Iq. destruct Iq as [Hq Nq].
+      apply negb_true_iff, memb_false in Nq.
+      split; [assumption|]. split.
+      + inversion ND as [|? ? NA ND']; subst. inversion ND' as [|? ? NB _]; subst.
+        constructor; [|constructor; [|constructor; [intros []|constructor]]].
+        * intros [H|[H|[]]]; [apply NA; now left | subst; apply Nq; now left].
+        * intros [H|[]]. subst. apply Nq. right. now left.
+      + intros x [<-|[<-|[<-|[]]]]; [apply I3; now left | apply I3; right; now left | assumption].
+  Qed.
+
+  Lemma walk_no_exn fuel A B : forall seen c p, Inv A B c p -> walk cells faces fuel f2c A B seen c p <> Exn.
+  Proof.
+    induction fuel as [|k IH]; intros seen c p IV; [discriminate|].
+    cbn [walk]. destruct (face_of_triple A B c p IV) as [f [Ef _]]. rewrite Ef.
+    destruct (other_face_side f2c c f) as [c'|] eqn:Eo; [|discriminate].
+    destruct (memb c' seen); [discriminate|].
+    destruct (step_inv A B c p f c' IV Ef Eo) as [q [rest [EO IV']]]. rewrite EO.
+    specialize (IH (c' :: seen) c' q IV').
+    destruct (walk cells faces k f2c A B (c' :: seen) c' q) as [[? ?]| |]; try discriminate. congruence.
+  Qed.
+
+  (* ---------------------------------------------------------------- gluing the two walks *)
+  Lemma Sorted_app_mid {A} (R : A -> A -> Prop) l1 x l2 :
+    Sorted R (l1 ++ [x]) -> Sorted R (x :: l2) -> Sorted R (l1 ++ x :: l2).
+  Proof.
+    induction l1 as [|a t IH]; simpl; intros S1 S2; [assumption|].
+    inversion S1 as [|? ? St Ha]; subst. constructor; [now apply IH|].
+    destruct t as [|b t']; simpl in *; inversion Ha; subst; now constructor.
+  Qed.
+
+  Lemma Sorted_rev_sym {A} (R : A -> A -> Prop) :
+    (forall a b, R a b -> R b a) -> forall l x, Sorted R (x :: l) -> Sorted R (rev l ++ [x]).
+  Proof.
+    intros Sym l. induction l as [|y t IH]; intros x S; simpl; [constructor; constructor|].
+    inversion S as [|? ? St Hx]; subst. inversion Hx; subst.
+    rewrite <- app_assoc. simpl. apply Sorted_app_mid; [now apply IH|].
+    constructor; [constructor; constructor|]. constructor. now apply Sym.
+  Qed.
+
+  Lemma Sorted_second {A} (R : A -> A -> Prop) c l : Sorted R (c :: l) -> forall y, In y l -> exists x, R x y.
+  Proof.
+    revert c. induction l as [|a t IH]; intros c S y Hy; [contradiction|].
+    inversion S as [|? ? St Hc]; subst. inversion Hc; subst. destruct Hy as [<-|Hy]; [now exists c|].
+    now apply (IH a St).
+  Qed.
+
+  Lemma adjacent_sym A B x y : adjacent_around A B x y -> adjacent_around A B y x.
+  Proof. intros [f [L [IA [IB [I1 I2]]]]]. exists f. tauto. Qed.
+
+  Lemma adjacent_contains A B x y : adjacent_around A B x y -> incl [A; B] (nth y cells []).
+  Proof. intros [f [L [IA [IB [I1 I2]]]]] v [<-|[<-|[]]]; now apply I2. Qed.
 End Ring.
+
+Lemma edge_ok_shape E : edge_ok E -> exists A B, E = [A; B] /\ A <> B.
+Proof.
+  intros [L N]. destruct E as [|A [|B [|? ?]]]; try discriminate. exists A, B. split; [reflexivity|].
+  inversion N as [|? ? NA _]; subst. intros ->. apply NA. now left.
+Qed.
+
+Lemma others_two C A B :
+  cell_ok C -> A <> B -> incl [A; B] C ->
+  exists p1 p2, others C [A; B] = [p1; p2] /\ NoDup [A; B; p1] /\ NoDup [A; B; p2]
+                /\ incl [A; B; p1] C /\ incl [A; B; p2] C.
+Proof.
+  intros [LC NC] NAB I.
+  assert (P : Permutation (filter (fun v => memb v [A; B]) C) [A; B]).
+  { apply NoDup_Permutation; [now apply NoDup_filter | constructor; [intros [H|[]]; now apply NAB | constructor; [intros []|constructor]] |].
+    intros x. rewrite filter_In, memb_In. split; [tauto|]. intros Hx. split; [now apply I|assumption]. }
+  apply Permutation_length in P. cbn [length] in P.
+  pose proof (filter_length_split (fun v => memb v [A; B]) C) as S. rewrite P, LC in S.
+  assert (ND : NoDup (others C [A; B])) by (apply NoDup_filter; assumption).
+  assert (IN : forall x, In x (others C [A; B]) -> In x C /\ ~ In x [A; B]).
+  { intros x Hx. unfold others in Hx. apply filter_In in Hx. destruct Hx as [Hx N]. split; [assumption|].
+    apply memb_false. now apply negb_true_iff. }
+  unfold others in *. destruct (filter (fun x => negb (memb x [A; B])) C) as [|p1 [|p2 [|? ?]]]; cbn [length] in S; try lia.
+  exists p1, p2. split; [reflexivity|].
+  destruct (IN p1 (or_introl eq_refl)) as [I1 N1]. destruct (IN p2 (or_intror (or_introl eq_refl))) as [I2 N2].
+  assert (T : forall p, In p C -> ~ In p [A; B] -> NoDup [A; B; p] /\ incl [A; B; p] C).
+  { intros p Ip Np. split.
+    - constructor; [intros [H|[H|[]]]; [now apply NAB | subst; apply Np; now left]|].
+      constructor; [intros [H|[]]; subst; apply Np; right; now left|]. constructor; [intros []|constructor].
+    - intros x [<-|[<-|[<-|[]]]]; [apply I; now left | apply I; right; now left | assumption]. }
+  destruct (T p1 I1 N1), (T p2 I2 N2). tauto.
+Qed.
+
+Section RingFinal.
+  Variables (cells faces edges : list (list nat)).
+  Hypothesis Hcells : Forall cell_ok cells.
+  Hypothesis Hfaces : faces_wf cells faces.
+  Hypothesis Hedges : edges_wf faces edges.
+  Let f2c := f2c_tab faces (c2f_tab cells faces).
+  Let e2f := e2f_tab edges (f2e_tab faces edges).
+  Let e2c := e2c_tab f2c e2f.
+  Let n := length cells.
+
+  (* THE EDGE RING THEOREM.  For every edge e and every start cell of e, the sort returns (never raises, never runs out
+     of fuel) a permutation of the cells and of the faces of e; and when it reports "sorted" the cell list is
+     duplicate-free, is  rev(backward walk) ++ start :: forward walk,  and consecutive cells share a face through e. *)
+  Theorem edge_ring_sorted e start :
+    e < length edges -> In start (nth e e2c []) ->
+    exists A B b cs fs,
+      nth e edges [] = [A; B] /\
+      sorted_edge cells faces edges f2c (nth e e2c []) (nth e e2f []) e start = Ok (b, cs, fs)
+      /\ Permutation cs (nth e e2c []) /\ Permutation fs (nth e e2f [])
+      /\ (b = true -> NoDup cs /\ Sorted (adjacent_around cells faces A B) cs /\ In start cs).
+  Proof.
+    intros He Hs.
+    pose proof (edge_ok_nth faces edges Hedges e He) as OKE.
+    destruct (edge_ok_shape _ OKE) as [A [B [EE NAB]]].
+    apply (edge_to_cell_correct cells faces edges Hcells Hfaces Hedges e start He) in Hs. destruct Hs as [Ls Is].
+    rewrite EE in Is.
+    destruct (others_two (nth start cells []) A B (cell_ok_nth cells Hcells start Ls) NAB Is)
+      as [p1 [p2 [EO [N1 [N2 [I1 I2]]]]]].
+    exists A, B. unfold sorted_edge. rewrite EE, EO.
+    assert (IV1 : Inv cells A B start p1) by (split; [exact Ls|split; assumption]).
+    assert (IV2 : Inv cells A B start p2) by (split; [exact Ls|split; assumption]).
+    destruct (edge_walks_rotational cells faces edges Hcells Hfaces e start A B p1 p2 EE EO Ls) as [NF1 W].
+    pose proof (walk_no_exn cells faces Hcells Hfaces (S (length cells)) A B [start] start p1 IV1) as NE1.
+    fold f2c in NF1, NE1, W.
+    destruct (walk cells faces (S (length cells)) f2c A B [start] start p1) as [[cs1 fs1]| |] eqn:W1; try congruence.
+    destruct (W cs1 fs1 eq_refl) as [S1 [ND1 [L1 [NF2 W']]]].
+    pose proof (walk_no_exn cells faces Hcells Hfaces (S (length cells)) A B (cs1 ++ [start]) start p2 IV2) as NE2.
+    fold f2c in NE2.
+    destruct (walk cells faces (S (length cells)) f2c A B (cs1 ++ [start]) start p2) as [[cs2 fs2]| |] eqn:W2; try congruence.
+    destruct (W' cs2 fs2 eq_refl) as [S2 [ND2 L2]].
+    set (kc := (start, 0%Z) :: keys_up cs1 ++ keys_down cs2). set (kf := keys_up fs1 ++ keys_down fs2).
+    destruct (forallb (has_key kc) (nth e e2c []) && forallb (has_key kf) (nth e e2f [])) eqn:T.
+    - apply andb_true_iff in T. destruct T as [T1 T2].
+      assert (EQ : forall x, In x (nth e e2c []) <-> In x (cs2 ++ start :: cs1)).
+      { intros x. split.
+        - intros Hx. rewrite forallb_forall in T1. specialize (T1 x Hx). apply has_key_In in T1.
+          unfold kc in T1. simpl in T1. rewrite map_app, keys_up_ku, keys_down_kd, ku_fst, kd_fst in T1.
+          apply in_or_app. destruct T1 as [<-|T1]; [right; now left|]. apply in_app_or in T1.
+          destruct T1; [right; now right | now left].
+        - intros Hx. apply (edge_to_cell_correct cells faces edges Hcells Hfaces Hedges e x He). rewrite EE.
+          apply in_app_or in Hx. destruct Hx as [Hx|[<-|Hx]].
+          + destruct (Sorted_second _ _ _ S2 x Hx) as [x' AD]. split; [|now apply (adjacent_contains cells faces A B x' x)].
+            apply (walk_spec cells faces f2c (f2c_bound cells faces)) in W2. destruct W2 as [_ [_ [FR _]]].
+            now apply FR.
+          + split; assumption.
+          + destruct (Sorted_second _ _ _ S1 x Hx) as [x' AD]. split; [|now apply (adjacent_contains cells faces A B x' x)].
+            apply (walk_spec cells faces f2c (f2c_bound cells faces)) in W1. destruct W1 as [_ [_ [FR _]]].
+            now apply FR. }
+      pose proof (sort_cells_is_ring start cs1 cs2 (nth e e2c []) ND2
+                    (edge_to_cell_NoDup cells faces edges e) EQ) as SC. fold kc in SC.
+      fold e2f e2c in SC. rewrite SC.
+      destruct (sort_ids_spec kf (nth e e2f []) T2) as [O [SF [PF _]]]. rewrite SF.
+      exists true, (rev cs2 ++ start :: cs1), (map fst O). split; [reflexivity|]. split; [reflexivity|].
+      assert (NDr : NoDup (rev cs2 ++ start :: cs1)).
+      { apply (Permutation_NoDup (l := cs2 ++ start :: cs1)); [|assumption]. apply Permutation_app_tail, Permutation_rev. }
+      split; [|split; [assumption|]].
+      + apply NoDup_Permutation; [assumption | apply edge_to_cell_NoDup |].
+        intros x. rewrite EQ, !in_app_iff, <- in_rev. tauto.
+      + intros _. split; [assumption|]. split; [|apply in_or_app; right; now left].
+        apply Sorted_app_mid; [|assumption].
+        apply Sorted_rev_sym; [apply adjacent_sym | assumption].
+    - exists false, (nth e e2c []), (nth e e2f []). split; [reflexivity|]. split; [reflexivity|].
+      split; [reflexivity|]. split; [reflexivity|discriminate].
+  Qed.
+End RingFinal.
